@@ -42,7 +42,7 @@ def run_both(drv, case):
         io["obj"] = alpha.exc_kind(e)
     mo = None
     if drv is not None:
-        mo = drv.ask({"op": "md", "items": items_json})
+        mo = drv.ask({"op": "md", "items": mdvals.model_view(items_json)})
         if isinstance(mo.get("back"), list):
             mo["back"] = mdvals.canon_items(mo["back"])
         if isinstance(mo.get("canon"), list):
